@@ -431,8 +431,8 @@ func procSpaghettiCheck(env hres.Env) (viol []hres.Viol, evidence map[string]any
 				what = fmt.Sprintf("step %s(%d): %d successors only in the generated Go, %d only in the spec", a.l, a.s, len(gs[a]), len(sp[a]))
 			}
 			counts[key]++
-			if w := fmt.Sprintf("%s\npre-state:\n%s", what, keys[i]); first[key] == "" || keys[i]+what < firstOrd[key] {
-				first[key], firstOrd[key] = w, keys[i]+what
+			if w := fmt.Sprintf("%s\npre-state:\n%s", what, keys[i]); first[key] == "" || psOrd(a.s, keys[i]+what) < firstOrd[key] {
+				first[key], firstOrd[key] = w, psOrd(a.s, keys[i]+what)
 				firstAt[key] = psReplay{Pair: "gotests-ProcedureSpaghetti", Label: a.l, Self: a.s, PreState: imgs[i]}
 			}
 		}
@@ -481,6 +481,14 @@ func psClassify(label string, self int, pre, goTo, specTo psImg) (key, what stri
 		}
 	}
 	return psKeyOther, desc
+}
+
+// psOrd orders candidate witnesses: the instance of the original report (Pross2) first, then by pre-state.
+func psOrd(self int, k string) string {
+	if self == 2 {
+		return "0" + k
+	}
+	return "1" + k
 }
 
 // psOnlyDiff: a and b are equal except that at one place a has extra where b has nothing, right
